@@ -337,7 +337,7 @@ fn merge_evidence(a: Value, mut b: Value) -> Value {
 }
 
 /// Re-run a replay file; returns the exit code (1 = violation reproduced, 0 = not reproduced).
-pub fn replay_file(path: &str, lookup: &dyn Fn(&str, &str) -> Option<Box<CaseFn>>) -> i32 {
+pub fn replay_file(path: &str, lookup: &dyn Fn(&str, &str, bool) -> Option<Box<CaseFn>>) -> i32 {
     let Ok(text) = std::fs::read_to_string(path) else {
         eprintln!("cannot read {}", path);
         return 2;
@@ -348,7 +348,7 @@ pub fn replay_file(path: &str, lookup: &dyn Fn(&str, &str) -> Option<Box<CaseFn>
     };
     let property = v["property"].as_str().unwrap_or("");
     let check = v["check"].as_str().unwrap_or("");
-    let Some(case) = lookup(property, check) else {
+    let Some(case) = lookup(property, check, v["tier"].as_str() == Some("thorough")) else {
         eprintln!("unknown check {}/{}", property, check);
         return 2;
     };
